@@ -216,6 +216,9 @@ func runC18(res *Result, tier string, seed int64, replay string) {
 		pair{"named-entity-mdash", wrap(`<mj-text>x &mdash; y &hellip;</mj-text>`), wrap("<mj-text>x — y …</mj-text>")},
 		pair{"raw-html-vs-cdata", wrap(`<mj-text>Hi <b>bold</b> &amp; <br> more</mj-text>`), wrap(`<mj-text><![CDATA[Hi <b>bold</b> &amp; <br> more]]></mj-text>`)},
 		pair{"raw-html-cdata-end", wrap(`<mj-text>a ]]&gt; b</mj-text>`), wrap(`<mj-text><![CDATA[a ]]&gt; b]]></mj-text>`)},
+		pair{"end-tag-space", wrap(`<mj-text>A</mj-text ><mj-button href="u">B</mj-button><mj-text>C</mj-text>`), wrap(`<mj-text>A</mj-text><mj-button href="u">B</mj-button><mj-text>C</mj-text>`)},
+		pair{"end-tag-newline", wrap("<mj-text>A</mj-text\n   ><mj-divider/><mj-text>C</mj-text\t>"), wrap(`<mj-text>A</mj-text><mj-divider/><mj-text>C</mj-text>`)},
+		pair{"end-tag-space-other", wrap(`<mj-button href="u">B</mj-button ><mj-text>C</mj-text>`), wrap(`<mj-button href="u">B</mj-button><mj-text>C</mj-text>`)},
 		pair{"quot-in-attr", wrap(`<mj-image src="x.png" alt="say &quot;hi&quot;"/>`), wrap(`<mj-image src="x.png" alt='say "hi"'/>`)},
 		pair{"lt-in-title", "<mjml><mj-head><mj-title>a &lt; b</mj-title></mj-head><mj-body><mj-section><mj-column><mj-text>t</mj-text></mj-column></mj-section></mj-body></mjml>",
 			"<mjml><mj-head><mj-title><![CDATA[a < b]]></mj-title></mj-head><mj-body><mj-section><mj-column><mj-text>t</mj-text></mj-column></mj-section></mj-body></mjml>"},
